@@ -58,6 +58,10 @@ CHECKS["C17"] = dict(cat="model_checking", technique="explicit-state BFS over le
 CHECKS["C09"] = dict(cat="exploration", technique="exhaustive grammar enumeration of macro definitions / invocations / #if expressions, c2m -E against gcc -E compared as pp-token sequences",
              text="Every replacement list of up to 3 (thorough 4) tokens over {x,y,#x,#y,##,x##y,A,B,F,G,(,),comma,1,+,__VA_ARGS__} in several macro environments (self reference, mutual recursion, function-like names without call, pasting) with fixed invocations, every parenthesis-balanced invocation of up to 5 (6) tokens against 27 fixed bodies, every #if expression of depth 2 plus reduced depth 3 over all preprocessor operators and boundary leaves, and conditional nests are preprocessed by the real c2m binary and by gcc; token sequences must agree.",
              note="cases on which gcc -std=c11 -pedantic -Wall -Wextra prints any diagnostic, #if expressions with undefined intmax_t behaviour (gen/ppeval.py) and two C11-undefined paste forms are dropped; tokens that c2m -E prints without a separating blank are not judged; #include/#pragma outside the grammar", ref="§3 C09")
+CHECKS["C08"] = dict(cat="exploration", technique="exhaustive enumeration of struct/union declarations (<=2, thorough <=3 members over a 23-member alphabet) and of by-value passing positions, c2m against gcc",
+             text="For every struct and union with up to 2 (thorough 3) members over scalars, arrays, bit-fields of eight widths incl. three zero-width forms, nested and anonymous aggregates, the c2m-compiled program must print the same sizeof, _Alignof, offsetof of every addressable member and byte image of every bit-field as the gcc-built one; "
+                  "every such type of at most 32 bytes is returned from gcc code, passed to gcc code as first argument and behind 5/6 integer and 7/8 double arguments, and passed to / returned from a c2mir callback called by gcc code, under c2m -ei and -eg, with member-wise checks on both sides.",
+             note="gcc 12 on this machine is the ABI reference (including its treatment of zero-width bit-fields); three-member types with bit-fields are checked for layout only; #pragma pack and attributes are not generated", ref="§3 C08")
 NOT_YET = {}
 def main():
     props = [json.loads(l) for l in open(os.path.join(VERIF, "properties.jsonl"))]
